@@ -415,6 +415,31 @@ def _cif_lowlevel(*, column, other):
     return _canon_cif_text(s.getvalue())
 
 
+def _guess_all(*, data):
+    """Model.guess for every model kind on the caller's own data array."""
+    out = {}
+    for name in ("gaussian", "lorentzian", "pseudo_voigt", "linear", "quadratic"):
+        res, exc = core.capture(_model(name, "g_")().guess, data)
+        out[name] = ["exc", exc.name] if exc else res
+    comp = _model("linear", "bkg_")() + _model("gaussian", "peak_")()
+    res, exc = core.capture(comp.guess, data)
+    out["composite"] = ["exc", exc.name] if exc else res
+    return out
+
+
+def _fit_counts(*, data):
+    import scipp as sc
+    from scippneutron.peaks import fit_peaks
+
+    x = data.coords[data.dim]
+    imax = int(np.argmax(data.values))
+    res, exc = core.capture(fit_peaks, data, peak_estimates=sc.concat([x[imax]], data.dim), windows=(x.max() - x.min()),
+                            background="linear", peak="gaussian")
+    if exc:
+        return ["exc", exc.name]
+    return [[r.assessment, r.message, r.window, dict(r.popt)] for r in res]
+
+
 def _cylinder_ctor(*, symmetry_line, center_of_base, radius, height):
     """Constructing the public shape classes is an entry point like any other."""
     from scippneutron.absorption.cylinder import Cylinder
@@ -442,6 +467,9 @@ VEC_KINDS["vec_axis0"] = "dimensionless"
 VEC_KINDS["vec_base0"] = "mm"
 
 CALLS.update({
+    "peaks.model.guess(spectrum)": (lambda: _guess_all, {"$data": "spectrum_var"}),
+    "peaks.model.guess(counts)": (lambda: _guess_all, {"$data": "counts"}),
+    "peaks.fit_peaks(counts)": (lambda: _fit_counts, {"$data": "counts"}),
     "absorption.Cylinder(...)": (lambda: _cylinder_ctor, _kw(symmetry_line="vec_axis0", center_of_base="vec_base0",
                                                             radius="cyl_radius", height="cyl_height")),
     "absorption.Material(...)": (lambda: _material_ctor, _kw(density="density_s", wavelength="wavelength_s")),
@@ -503,6 +531,15 @@ def build_data(kind, form):
         bump = 8.0 * np.exp(-((xs - 3.0) ** 2) / 0.5)
         y = sc.array(dims=["x"], values=g.uniform(1, 2, n + 12) + bump, unit="counts",
                      variances=g.uniform(0.1, 1, n + 12) if kind == "spectrum_var" else None)
+        return sc.DataArray(y, coords={"x": x}, name=f"v{form.get('choice', 0)}"), None
+    if kind == "counts":
+        # count data with exact ties and degenerate peak tops: what detectors deliver
+        shapes = [[0, 0, 0, 0, 5, 5, 0, 0, 0, 0], [1, 1, 1, 1, 6, 6, 1, 1, 1, 1], [0, 0, 0, 9, 0, 0, 0, 0],
+                  [2, 2, 3, 7, 7, 7, 3, 2, 2, 2], [4, 4, 4, 4, 4, 4, 4, 4], [0, 1, 3, 8, 3, 1, 0, 0, 0, 0],
+                  [0, 0, 0, 0, 0, 0, 0, 5, 5, 0], [5, 5, 0, 0, 0, 0, 0, 0, 0, 0]]
+        v = np.asarray(shapes[form.get("choice", form["seed"]) % len(shapes)], dtype=float)
+        x = sc.array(dims=["x"], values=np.arange(float(len(v))) * 0.5 + 1.0, unit="angstrom")
+        y = sc.array(dims=["x"], values=v, variances=v + 1.0, unit="counts")
         return sc.DataArray(y, coords={"x": x}, name=f"v{form.get('choice', 0)}"), None
     # tofdata: dense or binned data array with a tof coord in the conversion's own unit
     unit = "us" if form["unit"] == "target" else "ms"
@@ -1551,7 +1588,7 @@ class C09Engine(Engine):
                 "io.xye": None, "io.cif": None}
         reached = " ".join(list(CALLS) + list(FACTORIES) + list(DERIVES) + list(HCALLS)) + " " + " ".join(
             inspect.getsource(f) for f in (_model, _deduce, _cif_lowlevel, _from_nexus, _disk_chopper, _subframe, _source_pulse, _model_call, _model_params,
-                                           _transmission, _plateaus, _components, _fit_small, _convert,
+                                           _transmission, _plateaus, _components, _fit_small, _fit_counts, _guess_all, _convert,
                                            _remove_peaks_call, _xye_roundtrip, _cif_save, _cif_save_wrapper, _block_write,
                                            _use_graph, _call_model, _guess_model, _cyl, _material, _cif,
                                            _cif_block, _frameseq, _chopper))
